@@ -625,6 +625,10 @@ func c20SDK(c *Ctx) {
 					case *ast.AssignStmt:
 						for i, l := range s.Lhs {
 							if isField(tinfo, l, fv) {
+								// x.f = x.f leaves what is known about it as it is
+								if len(s.Lhs) == len(s.Rhs) && isField(tinfo, s.Rhs[i], fv) && pathKey(tinfo, l) != "" && pathKey(tinfo, l) == pathKey(tinfo, s.Rhs[i]) {
+									continue
+								}
 								delete(in, "ok")
 								if len(s.Lhs) == len(s.Rhs) {
 									r := unparen(s.Rhs[i])
